@@ -424,6 +424,13 @@ m("slice-roundfrac-no-end-check", "NUM-SLICE", ["C06", "C15"], "break", TS,
   "\t\tif idx >= len(dateStr) {\n\t\t\t// The string ends after the seconds (or their fraction): the offset is missing.\n\t\t\treturn invalidTimestamp(dateStr)\n\t\t}\n", "\t\tif idx > len(dateStr)+1 {\n\t\t\treturn invalidTimestamp(dateStr)\n\t\t}\n", "roundFractionalSeconds", False,
   "slice bound past the end of the string")
 
+
+m("panicapi-readnsecs-no-guard", "OWN-PANICAPI", ["C06"], "break", BS,
+  "\tif int64(d.scale)-9 < math.MinInt32 {", "\tif false && int64(d.scale)-9 < math.MinInt32 {", "readNsecs", True,
+  "a fraction exponent of 2^31-1 reaches ShiftL(9), which panics")
+m("panicapi-refactor-guard-spelling", "OWN-PANICAPI", ["C06"], "refactor", BS,
+  "\tif int64(d.scale)-9 < math.MinInt32 {", "\tif shifted := int64(d.scale) - 9; shifted < math.MinInt32 {", "", True, "guard expression kept in a local")
+
 os.makedirs(os.path.dirname(os.path.abspath(__file__)), exist_ok=True)
 with open(os.path.join(os.path.dirname(os.path.abspath(__file__)), "core.json"), "w") as f:
     json.dump(M, f, indent=1)
